@@ -33,7 +33,8 @@ def case_strategy(draw, max_cells=40):
             "sweep_seed": draw(st.integers(0, 1000)), "form": draw(st.sampled_from(["list", "tuple", "numpy"])), "np_ids": draw(st.integers(0, 3)) == 0,
             # how the mesh object under test is produced: directly, or written to a file and loaded back ("however a mesh is built")
             "via": draw(st.sampled_from([None, None, None, "tet", "mesh", "geogram_ascii"])),
-            "prequery_before_save": draw(st.booleans())}
+            "prequery_before_save": draw(st.booleans()),
+            "scale": draw(st.sampled_from([1.0, 1.0, 1.0, 1e-6, 1e-3, 1e3, 1e6]))}
 
 
 def rot_ok_cells(seq, ref, ek, closed):
@@ -331,6 +332,10 @@ def check_boundary_surface(ctx, V, faces_b, b2m_v, ref, what, expect_outward, ce
 
 
 def fn(case, ctx):
+    sc = case.get("scale", 1.0)
+    if sc != 1.0:
+        case = dict(case, V=[[x * sc for x in v] for v in case["V"]])     # uniform scale: no answer may depend on it
+        ctx.label("scale=%g" % sc)
     V, Cl = case["V"], case["C"]
     ref = TetRef(len(V), Cl)
     for t in case.get("tags", []):
@@ -449,6 +454,21 @@ def fn(case, ctx):
             check_boundary_surface(ctx, V, sf, b2m, ref, "extract_boundary_of_volume", allpos, None)
             bedges = set(tuple(ints(e)) for e in sm.edges)
             ctx.check(bedges == set(key(m2b[a], m2b[b]) for (a, b) in ref.border_edges()), "extract:edges", "edges of the extracted surface are not the mapped border edges")
+        # history on the same mesh object: border answers after the extraction, a second extraction, then the connectivity object
+        for kind in ("border_faces", "border_edges", "border_vertices"):
+            do_query(m4, ref, info, case["sort"], [kind, 0, 0], ctx, "after extract_boundary_of_volume on the same mesh")
+        for f in range(min(len(mfaces), 8)):
+            do_query(m4, ref, info, case["sort"], ["is_face_on_border", f, 0], ctx, "after extract_boundary_of_volume on the same mesh")
+        ok2, res2 = ctx.call("extract:second-call", B.extract_boundary_of_volume, m4)
+        if ok2:
+            sf2 = [tuple(ints(f)) for f in res2[0].faces]
+            ctx.check(sorted(key(res2[2][v] for v in f) for f in sf2) == sorted(ref.border_faces()), "extract:second-call",
+                      "a second extract_boundary_of_volume on the same mesh does not give the border faces")
+        ok3, _ = ctx.call("boundary:enable-after-extract", m4.enable_boundary_connectivity)
+        if ok3 and m4.boundary_mesh is not None:
+            bc4 = m4.boundary_connectivity
+            ctx.check(sorted(key(bc4.b2m_vertex[v] for v in ints(f)) for f in m4.boundary_mesh.faces) == sorted(ref.border_faces()),
+                      "boundary:enable-after-extract", "boundary_mesh built after a standalone extraction is not made of the border faces")
 
 
 SUBCHECKS = [SubCheck("volume_queries", case_strategy(), fn, quick=600, thorough=1500)]
